@@ -138,18 +138,6 @@ def classify_internal(files, tb, err=None):
     if m and inner == ('exactly_lib/util/symbol_table.py', 'lookup') and tb['type'] == 'KeyError' \
             and err.startswith('In [cleanup]'):
         return 'KF-C18-5' if _is_kf5(files, m.group(1)) else None
-    if tb['type'] == 'RecursionError' and \
-            inner == ('exactly_lib/impls/os_services/impl.py', 'copy_tree__preserve_as_much_as_possible') and \
-            sum(1 for f in tb['frames'] if f[1] == '_copytree' and f[0].endswith('shutil.py')) >= 3:
-        # KF-C18-13: a directory is copied (`copy`, `dir-contents-of`) to a place inside itself, two levels down or
-        # more: Exactly creates the parent of the destination first, shutil.copytree then finds it among the things
-        # to copy and recurses until Python's limit.  Model: the recursion is shutil's own (the traceback ends in
-        # repeated copytree frames below exactly's copy service) and the reported instruction copies a directory.
-        rep = R.parse_report(err or '')
-        src = '\n'.join(rep['chain'][-1][2]) if rep['chain'] else ''
-        if re.search(r'(^|\s)(copy|dir-contents-of)(\s|$)', src):
-            return 'KF-C18-13'
-        return None
     if tb['type'] == 'ValueError' and tb['message'].startswith('Exceeds the limit (4300 digits) for integer string conv') \
             and inner == ('exactly_lib/impls/types/integer/parse_integer.py', 'validator_for_non_negative'):
         # KF-C18-8 (second face): a negative int beyond Python's int -> str limit is put into the message of the
